@@ -661,6 +661,109 @@ func c12counterWrap(c *core.Ctx) {
 	c.Rep.Scenarios++
 }
 
+// c12idReuseHeld: the identifier of a request that has been acknowledged but still waits
+// behind an older, unacknowledged one is free again - and the process-wide counter comes
+// round to it (set by hand here: 65 535 other identifiers were drawn elsewhere in the
+// process).  Requests A and B in flight, B acknowledged, C drawn with B's identifier; A
+// acknowledged (A and B complete), then C acknowledged: C completes, once.  For QoS 1 and 2
+// publishes, and with 1-3 requests between A and C.
+func c12idReuseHeld(c *core.Ctx) {
+	if c.NShards > 1 && c.Shard != 5%c.NShards {
+		return
+	}
+	for _, kind := range []string{"pub1", "pub2"} {
+		for _, between := range []int{1, 2, 3} {
+			kind, between := kind, between
+			name := fmt.Sprintf("client: %s A, %d more, the last acknowledged first, its identifier drawn again for C, then A and C acknowledged", kind, between)
+			var viol string
+			body := func() {
+				w := NewClientWorld()
+				if !w.Connected("cid") {
+					return
+				}
+				w.Srv.Take()
+				message.VerifSetPacketIDCounter(100)
+				var reqs []*creq
+				issue := func(pl string) bool {
+					r, err := w.Issue(kind, []string{"t"}, nil, pl)
+					if err != nil {
+						vsched.Failf("%s failed: %v", kind, err)
+						return false
+					}
+					reqs = append(reqs, r)
+					return true
+				}
+				ack := func(id uint16) {
+					if kind == "pub1" {
+						w.ServerSend(&refcodec.Packet{Type: refcodec.PUBACK, ID: id})
+					} else {
+						w.ServerSend(&refcodec.Packet{Type: refcodec.PUBREC, ID: id})
+						w.Settle()
+						w.Srv.Take()
+						w.ServerSend(&refcodec.Packet{Type: refcodec.PUBCOMP, ID: id})
+					}
+					w.Settle()
+				}
+				for i := 0; i <= between; i++ {
+					if !issue(fmt.Sprintf("p%d", i)) {
+						return
+					}
+				}
+				w.Settle()
+				ps := w.Srv.Take()
+				if len(ps) != between+1 {
+					vsched.Failf("%d requests, on the wire: %s", between+1, Describe(ps))
+					return
+				}
+				last := ps[len(ps)-1].ID
+				ack(last) // B: completed, held back behind A
+				// the counter comes round: the next identifier drawn is B's
+				message.VerifSetPacketIDCounter(uint64(last) - 1)
+				if !issue("pC") {
+					return
+				}
+				w.Settle()
+				pc := w.Srv.Take()
+				if len(pc) != 1 || pc[0].Type != refcodec.PUBLISH {
+					vsched.Failf("request C on the wire: %s", Describe(pc))
+					return
+				}
+				for _, p := range ps[:len(ps)-1] {
+					if p.ID == pc[0].ID {
+						vsched.Failf("request C went out with identifier %d, which an unacknowledged request holds", p.ID)
+						return
+					}
+				}
+				for _, p := range ps[:len(ps)-1] {
+					ack(p.ID)
+				}
+				ack(pc[0].ID)
+				for i, r := range reqs {
+					if r.Completed != 1 {
+						vsched.Failf("request %d of %d (%s) was acknowledged; its completion fired %d times (request C carried identifier %d, the identifier of the request that was acknowledged first)", i, len(reqs), kind, r.Completed, pc[0].ID)
+						return
+					}
+				}
+			}
+			res := explore.RunDefault(body)
+			c.Rep.Executions++
+			c.Rep.States++
+			c.Rep.Transitions += int64(len(res.Points))
+			if res.Status == vsched.StCrash {
+				viol = "a library goroutine panicked: " + firstLine(res.Crash)
+			} else if len(res.Failures) > 0 {
+				viol = res.Failures[0]
+			}
+			if viol != "" {
+				if c.Violate("C12 id reuse held :: "+violClass(viol), core.Replay{Scenario: name, Message: viol}) {
+					return
+				}
+			}
+		}
+	}
+	c.Rep.Scenarios++
+}
+
 // c12failedWrite: a request that could not be sent (a PUBLISH larger than the outgoing
 // ring: Publish returns an error) is no request in flight; the requests after it complete
 // at their acknowledgements like any other.
